@@ -43,6 +43,19 @@ def default_compare(case, model_line, impl_line):
     return "model and implementation differ"
 
 
+def theorem_names(P):
+    """the names of the theorems in the Props files this check compiles and audits (read off the files on this run)"""
+    import re as _re
+    out = {}
+    for f in [P.COQ_PROPS] + list(getattr(P, "COQ_PROPS_EXTRA", [])):
+        try:
+            text = open(os.path.join(COQ, f), encoding="utf-8").read()
+        except OSError:
+            continue
+        out[f] = _re.findall(r"^Theorem\s+([A-Za-z0-9_']+)", text, _re.M)
+    return out
+
+
 def is_crash(line):
     return line is None or line.startswith("PANIC") or line.startswith("CRASH") or line == "TIMEOUT"
 
@@ -161,7 +174,14 @@ def run_check(P, tier, seed, replay=None):
         cases = pre + cases
     impl, model = evaluate(P, cases, harness, driver)
     compare = getattr(P, "compare", default_compare)
-    known_class = getattr(P, "known_class", lambda c, l: None)
+    _module_class = getattr(P, "known_class", lambda c, l: None)
+    _listed = {e["id"] for e in known_findings(prop) if e.get("kind") == "known"}
+
+    def known_class(c, l):
+        # a classifier may only excuse what the COMMITTED known_findings.json lists for this property: a class name the file
+        # does not carry excuses nothing (the case is reported like any other violation)
+        k = _module_class(c, l)
+        return k if k in _listed else None
     failures, divergences, known_seen = [], [], collections.Counter()
     distinct = set()
     hist = collections.Counter()
@@ -270,6 +290,7 @@ def run_check(P, tier, seed, replay=None):
         "checker_cmd": "cd coq && make -j%d %s  (Props file recompiled on every run; Print Assumptions audited)" % (CPUS, vo),
         "trusted_base": TRUSTED_BASE + getattr(P, "TRUSTED_EXTRA", []),
         "theorems": getattr(P, "THEOREMS", []),
+        "theorem_names": theorem_names(P),
         "axioms_used": axioms_used,
         "coqchk": chk_note if tier == "thorough" else "not run in the quick tier",
         "evaluations": len(cases), "distinct_nontrivial": len(distinct),
